@@ -31,6 +31,8 @@ type Opts struct {
 	RelayT       []string `json:"relay_templates"`
 	PendingBlock []string `json:"pending_blocks"`
 	MaxRelay     int      `json:"max_relay"`
+	// Games adds the C10 oracle (staking/binding histories, withdrawal sequences).
+	Games bool `json:"games"`
 }
 
 // Model implements proto.Model.
@@ -195,6 +197,21 @@ func (m *Model) Run(hist []string) *proto.Result {
 			r.KnownTags = w.PendingKnownTags(pd)
 		}
 		r.Info["pending_txs"] = len(w.Pend.Txs)
+	}
+	if m.O.Games {
+		for _, x := range w.CheckGames() {
+			diffs = append(diffs, "lifecycle: "+x)
+		}
+		if l := w.Ledger(); true {
+			for _, c := range l.ByOrder {
+				if c.Owner != nil && c.Class != world.ClassStd {
+					r.Info["deposits_seen"]++
+					if c.SpentAt != 0 {
+						r.Info["withdrawals_seen"]++
+					}
+				}
+			}
+		}
 	}
 	r.Viol = diffs
 	if len(diffs) > 0 {
